@@ -16,13 +16,31 @@ RULE = (
 )
 ASSUMPTIONS = ["the neighbour clause is a necessary condition when the k-th distance ties (DESIGN.md section 8 (iii))"]
 BUDGET = {
-    "quick": {"examples": 4000, "shards": 8, "min_nontrivial": 300},
-    "thorough": {"examples": 32000, "shards": 16, "min_nontrivial": 3000, "max_wall": 3000},
+    "quick": {"examples": 9600, "shards": 16, "min_nontrivial": 300},
+    "thorough": {"examples": 128000, "shards": 16, "min_nontrivial": 3000, "max_wall": 3000},
 }
 
 
+@st.composite
+def near_tied_case(draw, nlo, nhi):
+    """larger jittered-lattice sets under the Euclidean family, fixed small k: nearly tied but unequal densities between
+    asymmetric neighbours - the regime in which an already removed sample can be offered a better cost by a root lifted afterwards"""
+    nt = draw(st.integers(nlo, nhi))
+    dim = draw(st.sampled_from([1, 2, 2, 2]))
+    side = draw(st.integers(3, 6))
+    base = draw(st.lists(st.lists(st.integers(0, side - 1), min_size=dim, max_size=dim), min_size=nt, max_size=nt))
+    jit = draw(st.lists(st.lists(st.integers(-8, 8), min_size=dim, max_size=dim), min_size=nt, max_size=nt))
+    js = draw(st.sampled_from([0.0001220703125, 0.0001220703125, 0.0009765625, 0.00006103515625]))
+    X = [[b + j_ * js for b, j_ in zip(p_, q_)] for p_, q_ in zip(base, jit)]
+    k = draw(st.sampled_from([2, 2, 3]))
+    return {"model": "unsup", "mode": "feat", "nt": nt, "nq": 0, "nv": 0, "max_k": k, "min_k": k, "Y": None, "X": X,
+            "metric": draw(st.sampled_from(["euclidean", "squared_euclidean", "log_squared_euclidean"])), "pkind": "near_tied_lattice"}
+
+
 def strategy(tier):
-    return knncase.knn_case(nmax=14 if tier == "quick" else 24, kmax_force=True)
+    gen_ = knncase.knn_case(nmax=14 if tier == "quick" else 24, kmax_force=True)
+    near = near_tied_case(12, 30) if tier == "quick" else near_tied_case(12, 45)
+    return st.one_of(gen_, gen_, gen_, near)
 
 
 def cluster_forest_ok(r, case):
